@@ -203,7 +203,9 @@ func DiscoverRoles(p *Prog) *Roles {
 		}
 	}
 	ro.ConnLoop = loops
+	discoverServiceStateTypes(ro)
 	svcF = discoverServiceFields(p, ro)
+	discoverReplyStruct(p)
 	return ro
 }
 
@@ -362,13 +364,16 @@ func discoverServiceFields(p *Prog, ro *Roles) svcFields {
 	if ro.ServiceT == nil {
 		return f
 	}
-	st, ok := ro.ServiceT.Underlying().(*types.Struct)
-	if !ok {
-		return f
-	}
 	var bools, strLists []string
-	for i := 0; i < st.NumFields(); i++ {
-		fld := st.Field(i)
+	var flds []*types.Var
+	for _, stt := range serviceStateTypes {
+		if st, ok := stt.Underlying().(*types.Struct); ok {
+			for i := 0; i < st.NumFields(); i++ {
+				flds = append(flds, st.Field(i))
+			}
+		}
+	}
+	for _, fld := range flds {
 		t := fld.Type()
 		switch {
 		case isNamed(t, "net", "Listener"):
@@ -409,7 +414,7 @@ func discoverServiceFields(p *Prog, ro *Roles) svcFields {
 				for _, in := range b.Instrs {
 					if st, ok := in.(*ssa.Store); ok {
 						if k, ok := st.Val.(*ssa.Const); ok && constTerm(k) == "const:true" {
-							if fa, ok := st.Addr.(*ssa.FieldAddr); ok && isNamed(fa.X.Type(), pkgVarlink, "Service") {
+							if fa, ok := st.Addr.(*ssa.FieldAddr); ok && isServiceState(fa.X.Type()) {
 								f.Running = fieldName(fa.X, fa.Field)
 							}
 						}
@@ -424,7 +429,7 @@ func discoverServiceFields(p *Prog, ro *Roles) svcFields {
 		for _, b := range reg.Blocks {
 			for _, in := range b.Instrs {
 				if st, ok := in.(*ssa.Store); ok {
-					if fa, ok := st.Addr.(*ssa.FieldAddr); ok && isNamed(fa.X.Type(), pkgVarlink, "Service") {
+					if fa, ok := st.Addr.(*ssa.FieldAddr); ok && isServiceState(fa.X.Type()) {
 						for _, n := range strLists {
 							if fieldName(fa.X, fa.Field) == n {
 								f.Names = n
@@ -454,4 +459,111 @@ func isClientConnRecv(v ssa.Value) bool {
 		}
 	}
 	return false
+}
+
+// replyF: the service's reply message struct, found by its JSON keys (parameters, continues, error), and the Go names of
+// those members - the type and its members are unexported and can be renamed.
+var replyF struct {
+	Type                         *types.Named
+	Error, Parameters, Continues string
+}
+
+func discoverReplyStruct(p *Prog) {
+	replyF.Type, replyF.Error, replyF.Parameters, replyF.Continues = nil, "Error", "Parameters", "Continues"
+	pk := p.Pkgs[pkgVarlink]
+	if pk == nil {
+		return
+	}
+	sc := pk.Types.Scope()
+	for _, n := range sc.Names() {
+		tn, ok := sc.Lookup(n).(*types.TypeName)
+		if !ok {
+			continue
+		}
+		named, ok := tn.Type().(*types.Named)
+		if !ok {
+			continue
+		}
+		st, ok := named.Underlying().(*types.Struct)
+		if !ok {
+			continue
+		}
+		_, e := structFieldByJSON(st, "error")
+		_, pa := structFieldByJSON(st, "parameters")
+		_, co := structFieldByJSON(st, "continues")
+		if e != nil && pa != nil && co != nil && st.NumFields() == 3 {
+			replyF.Type, replyF.Error, replyF.Parameters, replyF.Continues = named, e.Name(), pa.Name(), co.Name()
+		}
+	}
+}
+
+// serviceStateTypes: Service and the struct types of package varlink that Service holds by value (an embedded
+// `serveState`, a nested bookkeeping struct): their members are the Service's state, whatever the nesting.
+var serviceStateTypes []*types.Named
+
+func discoverServiceStateTypes(ro *Roles) {
+	serviceStateTypes = nil
+	if ro.ServiceT == nil {
+		return
+	}
+	seen := map[*types.Named]bool{}
+	var walk func(n *types.Named, depth int)
+	walk = func(n *types.Named, depth int) {
+		if seen[n] || depth > 3 {
+			return
+		}
+		seen[n] = true
+		serviceStateTypes = append(serviceStateTypes, n)
+		st, ok := n.Underlying().(*types.Struct)
+		if !ok {
+			return
+		}
+		for i := 0; i < st.NumFields(); i++ {
+			if fn, ok := st.Field(i).Type().(*types.Named); ok && fn.Obj().Pkg() != nil && fn.Obj().Pkg().Path() == pkgVarlink {
+				if _, isSt := fn.Underlying().(*types.Struct); isSt {
+					walk(fn, depth+1)
+				}
+			}
+		}
+	}
+	walk(ro.ServiceT, 0)
+}
+
+// isServiceState: t is (a pointer to) Service or one of the structs it holds by value.
+func isServiceState(t types.Type) bool {
+	if pt, ok := t.(*types.Pointer); ok {
+		t = pt.Elem()
+	}
+	n, ok := t.(*types.Named)
+	if !ok {
+		return false
+	}
+	for _, s := range serviceStateTypes {
+		if s == n || types.Identical(s, n) {
+			return true
+		}
+	}
+	return false
+}
+
+// stateKeyField: k is a write-summary key "<Type>.<member>" of Service or of a struct it holds by value; returns the member.
+func stateKeyField(k string) (string, bool) {
+	i := strings.Index(k, ".")
+	if i < 0 {
+		return "", false
+	}
+	for _, s := range serviceStateTypes {
+		if s.Obj().Name() == k[:i] {
+			// a nested state struct as a whole is not a member of interest
+			if st, ok := s.Underlying().(*types.Struct); ok {
+				for j := 0; j < st.NumFields(); j++ {
+					if st.Field(j).Name() == k[i+1:] && isServiceState(st.Field(j).Type()) {
+						return "", false
+					}
+				}
+			}
+			return k[i+1:], true
+		}
+	}
+	return "", false
 }
